@@ -42,14 +42,14 @@ def make_schedule(nslots, faults, path, maxlen=30):
             "steps": sum(len(w) for w in walks), "model_states": stats["distinct"]}
 
 
-def capacity_edge_schedule(path, faults):
+def capacity_edge_schedule(path, faults, floats_only=False):
     """Integers inserted when the stream is within a few bytes of its capacity: sign and digits are two appends in the
     code, so 'the digits no longer fit' is hit for every family, digit count and distance to the capacity - with the
     growth succeeding (C16) or failing (C19)."""
     fams = [(0, 9), (1, 9), (2, 18), (3, 18), (4, 18), (5, 18)]       # family index, max decimal digits used
     with open(path, "w") as f:
         for cap in (256, 512, 1024):
-            for fam, maxd in fams:
+            for fam, maxd in ([] if floats_only else fams):
                 for d in (1, 2, 3, 7, 9, 18):
                     if d > maxd:
                         continue
@@ -61,6 +61,24 @@ def capacity_edge_schedule(path, faults):
                             f.write("reset\nconstruct 1 0 0\nappend 1 0 %d\n" % pre)
                             f.write("%sinsint 1 %d %d\n" % ("fault " if faults else "", fam, -v if neg else v))
                             f.write("tostring 1 0 0\nappendchar 1 0 3\ndestroy 1 0 0\n")
+            # floating-point insertions (%g text of 3..13 bytes) at every distance -2..2 from the capacity
+            import struct
+            dbls = [-1.23457e+100, 1234.5678, -1.7976931348623157e308, 0.5, -5e-324, 1e-5, 123456789.0, float("inf"), -2.5e-310, 100000.0]
+            for k, v in enumerate(dbls):
+                for isdbl in (0, 1):
+                    if not isdbl:
+                        try:
+                            v2 = struct.unpack("f", struct.pack("f", v))[0]
+                        except OverflowError:
+                            continue
+                    else:
+                        v2 = v
+                    need = len("%g" % v2)
+                    for delta in (-2, -1, 0, 1, 2):
+                        pre = cap - need - delta
+                        f.write("reset\nconstruct 1 0 0\nappend 1 0 %d\n" % pre)
+                        f.write("%sinsdbl 1 %d %d\n" % ("fault " if faults else "", isdbl, k))
+                        f.write("tostring 1 0 0\nappendchar 1 0 3\ndestroy 1 0 0\n")
 
 
 class StreamCheck(Check):
